@@ -192,9 +192,9 @@ pub fn into_tokens(c: char, it: &mut Peekable<Chars>, state: &mut State) -> LexR
                             cur_offset = match string.rfind('\n') {
                                 Some(idx) => CaretPos::new(
                                     state.pos.line + string.matches('\n').count(),
-                                    string.len() - idx,
+                                    string[idx + 1..].chars().count() + 1,
                                 ),
-                                None => state.pos.offset_pos(string.len() + 1),
+                                None => state.pos.offset_pos(string.chars().count() + 1),
                             };
                         }
                         build_cur_expr += 1;
